@@ -549,6 +549,25 @@ def part_accepted_compiles(chk, thorough):
             continue
         src = "%s#[derive(derive_more::%s)] %s" % (PREREQ.get(d, ""), d, it)
         cases.append(Case("g%d" % len(cases), "#[allow(unused_imports)] use super::*;\n" + src, has_run=False, meta=dict(derive=d, src=src, twin=it, on_all=(d, it) in on_all)))
+    # the companion impl a derive builds on written by hand instead of derived (deref_mut.md: "requires that the type also implements
+    # Deref, so usually Deref should also be derived"; likewise IndexMut/Index and Sum/Add), on generic types
+    # known finding: `#[deref_mut(forward)]` adds `where FieldTy: DerefMut`; once that predicate mentions a parameter it hides what
+    # `<FieldTy as Deref>::Target` is, so a hand-written `Deref` whose Target is spelled concretely no longer matches
+    KID_DM = "c01-deref-mut-forward-beside-hand-written-deref"
+    hand = [
+        ("DerefMut", "#[deref_mut(forward)] struct S<T>(Box<T>);", "impl<T> ::core::ops::Deref for S<T> { type Target = T; fn deref(&self) -> &T { &self.0 } }", KID_DM),
+        ("DerefMut", "#[deref_mut(forward)] struct S<'a>(&'a mut u8);", "impl ::core::ops::Deref for S<'_> { type Target = u8; fn deref(&self) -> &u8 { self.0 } }", KID_DM),
+        ("DerefMut", "#[deref_mut(forward)] struct S(Box<u8>);", "impl ::core::ops::Deref for S { type Target = u8; fn deref(&self) -> &u8 { &self.0 } }"),
+        ("DerefMut", "struct S<T>(Vec<T>);", "impl<T> ::core::ops::Deref for S<T> { type Target = Vec<T>; fn deref(&self) -> &Vec<T> { &self.0 } }"),
+        ("DerefMut", "#[deref_mut(forward)] struct S<T> { a: Vec<T> }", "impl<T> ::core::ops::Deref for S<T> { type Target = [T]; fn deref(&self) -> &[T] { &self.a } }", KID_DM),
+        # (the same with the Target spelled as the projection the derive uses: no known finding)
+        ("DerefMut", "#[deref_mut(forward)] struct S<T>(Box<T>);", "impl<T> ::core::ops::Deref for S<T> { type Target = <Box<T> as ::core::ops::Deref>::Target; fn deref(&self) -> &Self::Target { &self.0 } }"),
+        ("IndexMut", "struct S<T>(Vec<T>);", "impl<T, I> ::core::ops::Index<I> for S<T> where Vec<T>: ::core::ops::Index<I> { type Output = <Vec<T> as ::core::ops::Index<I>>::Output; fn index(&self, i: I) -> &Self::Output { &self.0[i] } }"),
+        ("Sum", "struct S<T>(T);", "impl<T: ::core::ops::Add<Output = T>> ::core::ops::Add for S<T> { type Output = Self; fn add(self, o: Self) -> Self { S(self.0 + o.0) } }"),
+    ]
+    for d, it, companion, *kid in hand:
+        src = "#[derive(derive_more::%s)] %s %s" % (d, it, companion)
+        cases.append(Case("g%d" % len(cases), "#[allow(unused_imports)] use super::*;\n" + src, has_run=False, meta=dict(derive=d, src=src, twin=it + " " + companion, on_all=False, decorate=True, known=kid[0] if kid else None)))
     eng = CompileEngine("C01G", header=HEADER, prelude=PRELUDE, mode="check", per_bin=max(20, len(cases) // 16 + 1))
     results = eng.run_cases(cases)
     for c in cases:
@@ -563,7 +582,7 @@ def part_accepted_compiles(chk, thorough):
         chk.outcome("degenerate-accepted-%s" % r.compile)
         msg = re.sub(r"g\d+::", "", r.diags[0]["message"]) if r.diags else "?"
         chk.violation("rustc: derive(%s) accepts a degenerate shape but the expansion %s: %s" % (c.meta["derive"], "does not compile" if r.compile == "error" else "warns", re.sub(r"`[^`]*`", "`..`", msg)[:80]),
-                      c.meta["src"], "; ".join(re.sub(r"g\d+::", "", d["message"]) for d in r.diags[:4]) + "\n" + (r.diags[0]["rendered"][:900] if r.diags else ""))
+                      c.meta["src"], "; ".join(re.sub(r"g\d+::", "", d["message"]) for d in r.diags[:4]) + "\n" + (r.diags[0]["rendered"][:900] if r.diags else ""), known_id=c.meta.get("known"))
     # ---- the same items generated by a `macro_rules!` that receives the field types as `$t:ty` fragments: the derive then sees every
     # such type inside an invisible group (`syn::Type::Group`).  Oracle: the macro-generated twin of a program that compiles, compiles.
     mcases = []
